@@ -401,6 +401,58 @@ func c03Include(c *ctx, d docSpec, incs []resSpec, alts []bool, how string) {
 	k.Replay = how
 }
 
+// c03IncludeAfterUnmarshal: a document that already lists included resources is marshaled,
+// unmarshaled (as a server receives it) and then extended with Include; oracle only (the
+// payload orders the inclusions, so the history is not the model's).
+func c03IncludeAfterUnmarshal(c *ctx, d docSpec, incs []resSpec) {
+	var key, detail string
+	n := 0
+	p, pv := guard(func() {
+		doc, u := d.build()
+		doc.Included = nil
+		for _, rs := range incs[:len(incs)/2] {
+			doc.Include(d.buildRes(rs))
+		}
+		out, err := jsonapi.MarshalDocument(doc, u)
+		if err != nil {
+			return
+		}
+		doc2, err := jsonapi.UnmarshalDocument(out, d.sc.build())
+		if err != nil || doc2.Data == nil {
+			return
+		}
+		for _, rs := range incs {
+			doc2.Include(d.buildRes(rs))
+		}
+		seen := map[[2]string]bool{}
+		add := func(r jsonapi.Resource, where string) {
+			k := [2]string{r.GetType().Name, r.Get("id").(string)}
+			if seen[k] && key == "" {
+				key, detail = "type-id-pair-twice", fmt.Sprintf("%s %q appears twice (%s) after UnmarshalDocument and Include", k[0], k[1], where)
+			}
+			seen[k] = true
+			n++
+		}
+		switch x := doc2.Data.(type) {
+		case jsonapi.Resource:
+			add(x, "primary")
+		case jsonapi.Collection:
+			for i := 0; i < x.Len(); i++ {
+				add(x.At(i), "primary")
+			}
+		}
+		for _, r := range doc2.Included {
+			add(r, "included")
+		}
+	})
+	if p {
+		key, detail = "include-panics", fmt.Sprint(pv)
+	}
+	how := fmt.Sprintf("%s, %d inclusions in the payload, %d Include calls after UnmarshalDocument", d.dataKind, len(incs)/2, len(incs))
+	k := c.add("include-oracle", d.desc()+" "+how, fmt.Sprintf("%s incs=%d", d.dataKind, min(len(incs), 8)), n == 0, oL(nil), oL(nil), key, detail)
+	k.Replay = how
+}
+
 func runC03(c *ctx) {
 	n := 160
 	if c.thorough() {
@@ -444,6 +496,9 @@ func runC03(c *ctx) {
 		c03Include(c, d, incs, alts, "random")
 		if c.r.chance(1, 2) {
 			c03Include(c, d, incs, alts, "unmarshaled, then Include")
+		}
+		if len(incs) >= 2 && c.r.chance(1, 2) {
+			c03IncludeAfterUnmarshal(c, d, incs)
 		}
 	}
 }
